@@ -167,6 +167,8 @@ class UnionMonitor(Monitor):
 
 
 def setup(concepts, spec):
+    from .. import probes
+    probes.install(['iterunion'])
     cap = CAP[spec['tier']]
     attach.attach_ctor(concepts)
     nm = concepts.lattice_members.NavigateableMixin
